@@ -9,7 +9,7 @@ HERE = os.path.dirname(os.path.dirname(os.path.abspath(__file__)))
 REMARKS = {
  'C17_p3': 'NOT CAUGHT, deliberately: the callback shortens the array being visited (see C17_m1)',
  'C02_p3': 'NOT CAUGHT, deliberately: needs a custom double format with an UPPER-case exponent (%E/%G), for which the unchanged tree already produces invalid JSON ("1E+20.0", DESIGN 8.3); the generator uses lower-case formats only',
- 'C08_p3': 'NOT CAUGHT: the symptom (a serializer returns text with a hole after a failed buffer growth) is exactly the listed known finding C08/serializer-ignores-printbuf-failure, whose key deliberately covers every serializer site; a new site of the same kind cannot be told apart while that finding stands',
+ 'C08_p3': 'first run: not caught — the broad known-finding key C08/serializer-ignores-printbuf-failure covered every serializer site; the finding is now listed per call site (function + statement, from the backtrace of the failed allocation) and serialize_boundary sweeps the growth boundary over every append, so the newly unchecked append of the literal is a new key',
  'C04_p3': 'NOT CAUGHT, deliberately: json_tokener_error_desc() with an out-of-range code; no property speaks about it',
  'C20_p3': 'first run: MISSED (json_object_to_file[_ext] never got a NULL object); FDF mode 3: -1 and nothing created, descriptors balanced',
  'C20_p1': 'first run: exit 2 (edit in progress); caught by FDF mode 4: the round trip in a process whose descriptor 0 is free',
